@@ -97,7 +97,15 @@ EndProblems ==
     IF Open = {} THEN {"harness:reply-without-request"}
     ELSE LET a == A[CHOOSE i \in Open : TRUE]
              b == BehAt(Script(cfg.servers[a.s], a.p), a.n)
-         IN IF e.res # EffKind(cfg, b) \/ e.t # a.st + Dur(cfg, b) THEN {"harness:reply-not-as-scripted"} ELSE {}
+             \* is anybody still waiting for the exchange this request was made for?  A request whose
+             \* exchange was abandoned is the pool's to drop; should it be polled again later (a stale
+             \* entry of the in-flight table) its reply is seen late, which is recorded and judged at
+             \* the `done` of whoever receives it (answer-without-exchange, healthy-server-not-used ...)
+             alive == LkOf(a.q).active /\ LkOf(a.q).origin = cs[a.o].lk
+         IN IF e.res # EffKind(cfg, b) THEN {"harness:reply-not-as-scripted"}
+            ELSE IF alive /\ e.t # a.st + Dur(cfg, b) THEN {"harness:reply-not-as-scripted"}
+            ELSE IF ~alive /\ e.t < a.st + Dur(cfg, b) THEN {"harness:reply-not-as-scripted"}
+            ELSE {}
 
 EndUpdate ==
     LET i == CHOOSE x \in Open : TRUE IN
